@@ -6,6 +6,7 @@ import json
 import os
 import pickle
 import random
+import re
 import sys
 import types
 import warnings
@@ -303,6 +304,8 @@ def run_scenario(scen, chooser_factory, max_steps=4000, observe=True):
     H.futs = {}
     H.by_wid = []
     H.reuse_calls = []
+    H.seen_ids = set()
+    H.api_tb = []
     H.cb_submitted = []
     simtasks.HOLDER = H
     H.pickler_at_submit = {}
@@ -353,6 +356,15 @@ def run_scenario(scen, chooser_factory, max_steps=4000, observe=True):
                          "shutdown": ex._flags.shutdown, "pids": sorted(ex._processes),
                          "alive": sorted(p.pid for p in ex._processes.values() if p.alive),
                          "started": ex._executor_manager_thread is not None}
+                if ex.executor_id not in H.seen_ids:
+                    # a fresh instance is handed out: every earlier instance must be completely shut down by now
+                    mine = set(ex._processes)
+                    after["stale_live"] = sorted(
+                        [a.name for a in E.ENG.actors.values()
+                         if re.fullmatch(r"M\d*", a.name) and not a.done and not a.killed] +
+                        [a.name for a in E.ENG.actors.values()
+                         if a.kind == "proc" and a.proc is not None and a.proc.alive and a.proc.pid not in mine])
+                    H.seen_ids.add(ex.executor_id)
                 window = E.ENG.trace[t0:]
                 H.reuse_calls.append({"user": ui, "args": a, "before": before, "after": after,
                                       "faults_during": sum(1 for t in window if t[1] in ("timeout", "crash")),
@@ -367,7 +379,7 @@ def run_scenario(scen, chooser_factory, max_steps=4000, observe=True):
                     out = "noexec"
                 else:
                     spec = tasks[k]
-                    f = ex.submit(simtasks.task, k, spec, simtasks.make_arg(spec.get("args", "ok")))
+                    f = ex.submit(simtasks.task, k, spec, simtasks.make_arg(spec.get("args", "ok"), k))
                     cb = spec.get("cb")
                     if cb == "submit":
                         f.add_done_callback(simtasks.CbSubmit(spec["cb_task"], tasks))
@@ -404,6 +416,9 @@ def run_scenario(scen, chooser_factory, max_steps=4000, observe=True):
             raise
         except BaseException as e:
             out = "raise:" + type(e).__name__
+            if kind != "submit":
+                import traceback
+                H.api_tb.append((ui, kind, "".join(traceback.format_exception(type(e), e, e.__traceback__))[-1500:]))
             if any(e is i["flags"].broken for i in world.executors):
                 out += ":flag"
         return out
@@ -480,6 +495,7 @@ def run_scenario(scen, chooser_factory, max_steps=4000, observe=True):
                          if isinstance(o, E.SimSem) and o.value == 0 and o.owner is not None
                          and o.owner.kind == "proc" and not o.owner.proc.alive},
         "dropped": H.ex is None,
+        "api_tb": H.api_tb,
         "reuse_calls": H.reuse_calls,
         "pickler_at_submit": {str(k): v for k, v in H.pickler_at_submit.items()},
         "pickler_in_worker": [list(x) for x in simtasks.PICKLER_LOG],
